@@ -10,6 +10,7 @@ import (
 	"regexp"
 	"strings"
 	"testing"
+	"time"
 
 	"github.com/antlr4-go/antlr/v4"
 	"github.com/remieven/ysgo"
@@ -58,10 +59,36 @@ func independentValidity(piece string) (pv pieceValidity) {
 
 var seedRe = regexp.MustCompile(`^[0-9a-z]*$`)
 
+// c05Limit bounds one decision. Error recovery of the generated parser is quadratic in the number of tokens after the
+// error (a 140 KiB comment behind an unclosed expression takes minutes): slowness on a large input is not a verdict.
+// On a small input nothing legitimate takes this long; there the bound stands for "does not terminate".
+const (
+	c05Limit      = 150 * time.Second
+	c05SmallInput = 8192
+)
+
 func runC05(c c05Case) Verdict {
 	if c.Pieces == nil {
 		c.Pieces = []string{c.Input}
 	}
+	size := 0
+	for _, p := range c.Pieces {
+		size += len(p)
+	}
+	done := make(chan Verdict, 1)
+	go func() { done <- safeRun(decideC05, c) }()
+	select {
+	case v := <-done:
+		return v
+	case <-time.After(c05Limit):
+		if size <= c05SmallInput {
+			return failf("creating a runner for %d bytes of input did not finish within %v: it does not terminate", size, c05Limit)
+		}
+		return Verdict{Discard: "slow on a large input (time budget, inconclusive)"}
+	}
+}
+
+func decideC05(c c05Case) Verdict {
 	allValid := true
 	var cls []string
 	lexOnly, parseAny, hasBody := false, false, false
@@ -331,6 +358,11 @@ var mixedPrefixes = []string{" \t", "\t ", "\t    ", "    \t", "\t\t ", " \t\t",
 func genC05Constructed(t *rapid.T) c05Case {
 	sc := genScript(t, scriptOpts{maxNodes: 3, maxDepth: 3, maxBody: 4})
 	lay := genLayout(t)
+	willBreak := rapid.Bool().Draw(t, "break")
+	if willBreak {
+		// (error recovery is quadratic in what follows the error: no very long lines behind a syntax error)
+		lay.LongNoise = min(lay.LongNoise, 300)
+	}
 	pieces := renderScript(sc, &lay)
 	c := c05Case{Pieces: pieces, Seed: "s1", Kind: "generated", Expect: "accept"}
 	if rapid.IntRange(0, 5).Draw(t, "longliteral") == 0 {
@@ -341,7 +373,7 @@ func genC05Constructed(t *rapid.T) c05Case {
 		pieces[pi] = strings.Replace(pieces[pi], "---\n", "---\n"+fmt.Sprintf(stmt, digits), 1)
 		c.Kind = "generated + long number literal"
 	}
-	if rapid.Bool().Draw(t, "break") {
+	if willBreak {
 		// one edit that makes the script invalid under any reading of the syntax
 		pi := rapid.IntRange(0, len(pieces)-1).Draw(t, "piece")
 		lines := strings.SplitAfter(pieces[pi], "\n")
